@@ -1390,7 +1390,12 @@ impl BookedVersions {
                     // then we must have it as a fully applied or cleared version
                     None => true,
                 })
-                .unwrap_or(true)
+                // asked about the whole version: a partial with missing sequences is not it
+                .unwrap_or_else(|| {
+                    self.partials
+                        .get(&version)
+                        .is_none_or(|partial| partial.is_complete())
+                })
     }
 
     pub fn contains_all(
